@@ -41,14 +41,27 @@
        final "Unbound variables" check (nothing else);
      C08_uniq_nodup_sound_partial — ensure_unique_bound_variables is total and meaning-preserving when binder names
        are pairwise distinct;  C08_walk_doc_equiv (FULL) — listener walk == plain documented translation.
-   STILL MISSING: formulas whose binder names repeat (xor/iff over quantified operands, XPath on a type with several
-     alternatives and a quantified body): needs an alpha-renaming theorem for ensure_unique_bound_variables; XPath
-     expressions rooted at a free nonterminal (close_groups), several XPath expressions, `..` in the end-to-end
-     statement and below conjunctions (push_in_formulas); discharge of the final free-variable check; an independent
-     (state-free) specification of which variable an occurrence of <T> denotes (walk_doc shares the listener state). *)
+   ALPHA-RENAMING (wave 4; Logic/SugarFresh.v, SugarAlpha.v, SugarAlpha2.v, SugarAlpha3.v, SugarCompose2.v, SugarComposeX2.v):
+     C08_uniq_sound_partial — ensure_unique_bound_variables WITH renaming (blind substitute_variables, fresh_vars over the
+       threaded used-name set) preserves the meaning of every formula without shadowing whose free BoundVariables are
+       protected from the invented names (guard uniq_ok; new premise: quantifier domains do not depend on the names of
+       bound variables, C08_dom_ren_witnesses); C08_sub_capture_free (substitution lemma), C08_fresh_vars_fresh,
+       C08_uniq_total (FULL: the pass returns with the model's fuel).  The unguarded statement is REFUTED:
+       C08_uniq_capture_refuted (new defect class K_uniq_capture: the pass starts with an empty used-name set and renames a
+       binder to the name already invented for a free nonterminal).
+     C08_sugar_core_noxpath2_partial / C08_sugar_core_xpath1b_partial / C08_elab_total_noxpath2_partial — the end-to-end
+       theorems with the condition "binder names pairwise distinct" REPLACED by "pairwise distinct or uniq_ok" (guards
+       sugar_guard_nox2, sugar_guard_xp1b; harness guard sugar_guard2): repeated user names, xor/iff over quantified
+       operands, XPath on a type with >= 2 alternatives and a quantified body are now inside.
+   STILL MISSING: XPath expressions rooted at a free nonterminal (close_groups), several XPath expressions, `..` in the
+     end-to-end statement and below conjunctions (push_in_formulas) [gap (2) of wave 4: not done]; discharge of the final
+     free-variable check (needs fv-monotonicity of every stage AND a surface condition "user variables are used inside
+     the scope of their quantifier": without it the SyntaxError is the correct outcome) [gap (3): not done]; renaming in
+     the FIRST pass when an XPath expression is present (the documented side finds the first variable by name); an
+     independent (state-free) specification of which variable an occurrence of <T> denotes. *)
 From Coq Require Import List NArith Bool.
 Import ListNotations.
-From ISLA Require Import Str Outcome Tree Grammar Formula Sugar SugarFacts SugarMore SugarXPath SugarTotal SugarClose SugarUniq SugarWalk SugarCompose SugarGhost SugarAddm SugarComposeX SugarFresh SugarAlpha SugarAlpha2 SugarAlpha3 SugarCompose2 SugarComposeX2.
+From ISLA Require Import Str Outcome Tree Grammar Formula Sugar SugarFacts SugarMore SugarXPath SugarTotal SugarClose SugarUniq SugarWalk SugarCompose SugarGhost SugarAddm SugarComposeX SugarFresh SugarAlpha SugarAlpha2 SugarAlpha3 SugarCompose2 SugarComposeX2 SugarFv.
 
 (* implies / iff / xor, as built by the parser from the smart constructors, have their truth-table meaning *)
 Theorem C08_derived_connectives :
@@ -592,3 +605,13 @@ Theorem C08_sugar_core2_nonvacuous :
   (exists c c', elab G0 S_xp2 = Ok c /\ elab_doc_xp1 G0 S_xp2 = Ok c' /\ cf_eqb c c' = false).
 Proof. exact sugar_core2_nonvacuous. Qed.
 Print Assumptions C08_sugar_core2_nonvacuous.
+
+(* first piece of gap (3) (discharge of the final "Unbound variables" check): ensure_unique_bound_variables introduces NO
+   new free variable - for every formula whose quantifiers bind BoundVariables, every used-name set and every fuel; no
+   freshness argument is needed for this direction (a capture only removes free variables).  FULL for this stage;
+   the corresponding lemmas for the push-in / closure loop / AddMexprTransformer and the surface condition "user
+   variables are used inside the scope of their quantifier" are still missing. *)
+Theorem C08_uniq_fv : forall n U f f' U', uniq n U f = Ok (f', U') -> vbound_all f = true ->
+  forall x, In x (fv f') -> In x (fv f).
+Proof. exact uniq_fv. Qed.
+Print Assumptions C08_uniq_fv.
